@@ -63,7 +63,7 @@ def cases(tier, seed):
     # model VALUES only: intermediates that overflow (exp(896) = inf) while the value stays defined - on and off must agree
     for d in space.family_extreme():
         yield {"kind": "py-model", "def": d, "seed": seed, "per_symbol": 2 if tier == "quick" else 3}
-    sub = (fam[::3] + [d for d in fam if ("manytemps" in d["name"] or d in named[:2] or d in sizes or d in pw) and d not in fam[::3]]) if tier == "quick" else fam
+    sub = (fam[::3] + [d for d in fam if ("manytemps" in d["name"] or d in named[:2] or d in sizes or d in pw or "ctl-only" in d["name"] or "dt-only" in d["name"]) and d not in fam[::3]]) if tier == "quick" else fam
     for d in sub:
         yield {"kind": "cpp", "def": d, "seed": seed}
 
@@ -167,7 +167,7 @@ def eval_py(case):
 
 
 FUNC_RE = re.compile(r"^\s*(?:[\w:<>,\s\*&]+?)\s+([\w:]+)\(([^)]*)\)\s*(?:const)?\s*\{\s*$")
-DECL_RE = re.compile(r"^\s*double\s+(\w+)\s*=\s*(.*);\s*$")
+DECL_RE = re.compile(r"^\s*(?:static\s+)?(?:constexpr\s+)?(?:const\s+)?(?:double|float|bool|int|auto)\s+(?:const\s+)?(\w+)\s*=\s*(.*);\s*$")
 ASSIGN_RE = re.compile(r"^\s*(\w+)\((\d+),\s*(\d+)\)\s*=\s*(.*);\s*$")
 IDENT_RE = re.compile(r"[A-Za-z_][A-Za-z_0-9]*(?:\s*\.\s*[A-Za-z_][A-Za-z_0-9]*(?:\(\))?)*")
 
@@ -196,7 +196,7 @@ def def_use(source_text):
             while i < len(lines) and not re.match(r"^\s*return\b", lines[i]):
                 line = lines[i]
                 # a statement may span several lines (the C printer breaks conditional expressions): join up to the ';'
-                if re.match(r"^\s*(double\s+\w+|\w+\(\d+,\s*\d+\))\s*=", line) and not line.rstrip().endswith(";"):
+                if re.match(r"^\s*((?:static\s+)?(?:const\s+)?(?:double|float|bool|int|auto)\s+\w+|\w+\(\d+,\s*\d+\))\s*=", line) and not line.rstrip().endswith(";"):
                     j = i
                     while j + 1 < len(lines) and not lines[j].rstrip().endswith(";"):
                         j += 1
@@ -242,10 +242,17 @@ def eval_cpp(case):
     ref = RefEKF(d)
     from fv.props.c02 import points_for
     pts = points_for(d, case["seed"])
+    percal = bool(d["calibration"])
+    if percal:
+        # the same generated functions evaluated, in ONE process, with the definition's calibration and then with another one
+        # (calibration is an argument of the generated C++; nothing of it may be remembered between calls)
+        cal0 = dict((k_, v_) for k_, v_ in d["calmap"])
+        cal1 = {k_: v_ * -1.5 + 0.375 * (i_ + 1) for i_, (k_, v_) in enumerate(sorted(cal0.items()))}
+        pts = [dict(p_, cal=cal0) for p_ in pts] + [dict(p_, cal=cal1) for p_ in pts[:4]] + [dict(p_, cal=cal0) for p_ in pts[:2]]
     fails = []
     runs = {}
     for cse in (True, False):
-        res = cppharness.build_and_run_ekf(d, {"cse": cse, "innovation_filtering": None}, pts)
+        res = cppharness.build_and_run_ekf(d, {"cse": cse, "innovation_filtering": None}, pts, cal_per_point=percal)
         if not res["ok"]:
             return {"n": 1, "fails": [{"key": f"{res['stage']}-failed:cpp", "what": f"{d['name']} cse={cse}: {res['error']}"}]}
         runs[cse] = res
@@ -270,6 +277,8 @@ def eval_cpp(case):
         if fails:
             break
         full = ref.env(pts[p]["env"])
+        if percal:
+            full.update(pts[p]["cal"])
         try:
             fx = ref.fx(full)
         except R.Singular:
